@@ -45,7 +45,10 @@ fn main() {
       }
       "st" => {
         let s: &'static str = Box::leak(unhex_str(t[2]).into_boxed_str());
-        let p = heap.alloc_str_for_test(s);
+        let p = match catch_unwind(AssertUnwindSafe(|| heap.alloc_str_for_test(s))) {
+          Ok(p) => p,
+          Err(_) => return "panic".to_string(),
+        };
         handles.insert(t[1].to_string(), p);
         show(&heap, p)
       }
@@ -79,13 +82,17 @@ fn main() {
           return "skip".to_string();
         }
         let parts: Vec<PStr> = t[1..].iter().map(|s| handles[*s]).collect();
-        let m = heap.alloc_module_reference(parts);
-        format!("m:{}", mod_index(&mut mods, m))
+        match catch_unwind(AssertUnwindSafe(|| heap.alloc_module_reference(parts))) {
+          Ok(m) => format!("m:{}", mod_index(&mut mods, m)),
+          Err(_) => "panic".to_string(),
+        }
       }
       "ams" => {
         let parts: Vec<String> = t[1..].iter().map(|s| unhex_str(s)).collect();
-        let m = heap.alloc_module_reference_from_string_vec(parts);
-        format!("m:{}", mod_index(&mut mods, m))
+        match catch_unwind(AssertUnwindSafe(|| heap.alloc_module_reference_from_string_vec(parts))) {
+          Ok(m) => format!("m:{}", mod_index(&mut mods, m)),
+          Err(_) => "panic".to_string(),
+        }
       }
       "gm" => {
         let parts: Vec<String> = t[1..].iter().map(|s| unhex_str(s)).collect();
